@@ -3,9 +3,11 @@ package main
 // C09 -- replacement can only re-target the submitter's own attested message.
 
 import (
+	"bytes"
 	"fmt"
 	sdk "github.com/cosmos/cosmos-sdk/types"
 	"math/big"
+	"strings"
 
 	"cosmossdk.io/math"
 
@@ -195,6 +197,14 @@ func c09Run(r *Run, burnPaused, sendPaused bool, attCfg string) {
 		case o.Panicked:
 			r.Violate("C09 panic in replacement", a.Desc+": "+o.PanicVal, rp("", ""))
 			return
+		case p.Exp == MustFail && o.OK && strings.HasSuffix(a.Desc, " by "+c09LongName) && len(p.failed()) == 1 &&
+			(p.failed()[0] == "original sender is the submitter" || p.failed()[0] == "depositor is the submitter"):
+			// finding F10 (known_findings.json): the handlers build the submitter's padded form with copy(buf[12:], addr), which
+			// keeps only the first 20 bytes of a longer account. Named by what fails (the account shape and the handler), so that
+			// any other way of accepting a non-sender -- another account, another condition false as well -- keeps its own name.
+			r.Violate("C09 "+p.Kind+" accepted from a 32-byte account that only begins with the "+map[bool]string{true: "sender", false: "depositor"}[p.failed()[0] == "original sender is the submitter"]+"'s 20 bytes",
+				fmt.Sprintf("[%s] %s: %s", cfg, a.Desc, p.Why), rp("MUST_FAIL: "+p.Why, "ok"))
+			return
 		case p.Exp == MustFail && o.OK:
 			r.Violate("C09 replacement accepted although a condition is false: "+firstFailed(p), fmt.Sprintf("[%s] %s: %s", cfg, a.Desc, p.Why), rp("MUST_FAIL: "+p.Why, "ok"))
 			return
@@ -243,6 +253,10 @@ func c09Run(r *Run, burnPaused, sendPaused bool, attCfg string) {
 			subs = append(subs, Account{Name: fmt.Sprintf("A4[:%d]", n), Addr: a, Str: a.String()})
 		}
 	}
+	// ... and a different, LONGER account (32 bytes, as module-derived and interchain accounts are) whose address
+	// begins with the original sender's 20 bytes -- not the sender either (round 6)
+	longA := sdk.AccAddress(append(append([]byte{}, UserA.Addr...), bytes.Repeat([]byte{0xCD}, 12)...))
+	subs = append(subs, Account{Name: c09LongName, Addr: longA, Str: longA.String()})
 	for _, og := range origs {
 		for si, sub := range subs {
 			shapes, newBodies := shapes, newBodies
@@ -277,6 +291,8 @@ func c09Run(r *Run, burnPaused, sendPaused bool, attCfg string) {
 		}
 	}
 }
+
+const c09LongName = "A4+12B"
 
 // c09K2Spelling: how the second attester is spelled in the genesis of this configuration
 // (upper case where it is later rotated away for good).
